@@ -154,6 +154,13 @@ def _check(sub, doc, toks, acc):
     modes = [False]
     if "\\" not in text:
         modes.append(True)
+    else:
+        # the text has a backslash: the default decoder is outside the clause, but parsing it with that decoder first
+        # must not influence what the same text means with decoding disabled
+        try:
+            JSONPointer(text)
+        except Exception:  # noqa: BLE001
+            pass
     for ue in modes:
         bad = None
         note = "unicode_escape=%s" % ue
